@@ -71,7 +71,9 @@ type c13Seq struct {
 	stranger       *wallet.Account
 	garbageDomains map[int]bool
 	attempts       []c13Attempt
-	holdDesignate  bool // keep designation transactions out of every block
+	issues         []string // monitor findings on the NNS records (deduplicated)
+	sentLog        []string // every transaction handed to the node, with the node's answer
+	holdDesignate  bool     // keep designation transactions out of every block
 	ticks          int
 	strangerTx     map[util.Uint256]bool
 }
@@ -292,6 +294,11 @@ func (q *c13Seq) tick(k int) {
 		if nn != 0 {
 			nonce = nn
 		}
+		if s.Err == nil {
+			q.sentLog = append(q.sentLog, fmt.Sprintf("h=%d m%d %s: pooled", s.Height, k, w))
+		} else {
+			q.sentLog = append(q.sentLog, fmt.Sprintf("h=%d m%d %s: refused: %v", s.Height, k, w, s.Err))
+		}
 		if kind == "designate" {
 			order = ord
 			att := c13Attempt{By: append([]int{0}, ord...), AllOwn: true, Verdict: "accepted"}
@@ -319,7 +326,10 @@ func (q *c13Seq) tick(k int) {
 			}
 			continue
 		}
-		require.Equal(q.t, "designate", kind, "only the designation may be refused by the node: %v", s.Err)
+		if kind != "designate" {
+			q.issue(fmt.Sprintf("the node refused a %s transaction of member %d: %v", kind, k, s.Err))
+			continue
+		}
 		v := ""
 		switch {
 		case errors.Is(s.Err, neorpc.ErrInvalidSignature):
@@ -329,7 +339,8 @@ func (q *c13Seq) tick(k int) {
 		case errors.Is(s.Err, neorpc.ErrAlreadyInPool), errors.Is(s.Err, neorpc.ErrAlreadyExists):
 			v = "VAlreadyKnown"
 		default:
-			q.t.Fatalf("unexpected refusal: %v", s.Err)
+			v = "VVerificationFailed"
+			q.issue(fmt.Sprintf("the node refused the designation with an unexpected error: %v", s.Err))
 		}
 		q.rejected[v]++
 		evs = append(evs, fmt.Sprintf("ERejected %s %s", w, v))
@@ -392,6 +403,9 @@ func (q *c13Seq) snapshot() string {
 	var sigs []string
 	for i := 0; i < q.n; i++ {
 		if recs, ok := q.records(deploy.VerifDesignateNotarySignatureDomainForMember(i)); ok {
+			if len(recs) > 1 && !q.garbageDomains[i] {
+				q.issue(fmt.Sprintf("notary bootstrap: signature domain %d holds %d records — a re-made signature was appended instead of replacing record 0, readers only see the first", i, len(recs)))
+			}
 			var rs []string
 			for _, r := range recs {
 				rs = append(rs, q.sigrec(r))
@@ -400,6 +414,47 @@ func (q *c13Seq) snapshot() string {
 		}
 	}
 	return fmt.Sprintf("(mkSnap %d %s %s %s)", q.x.bc.BlockHeight(), tx, ListLit(sigs), BoolLit(q.designated()))
+}
+
+func (q *c13Seq) issue(what string) {
+	for _, i := range q.issues {
+		if i == what {
+			return
+		}
+	}
+	q.issues = append(q.issues, what)
+}
+
+// finalIssues looks at the NNS records of a fair run that did not designate:
+// a live signer whose first record is not for the current shared data.
+func (q *c13Seq) finalIssues(live []int) {
+	txs, ok := q.records(deploy.VerifDomainDesignateNotaryTx)
+	if !ok || len(txs) == 0 {
+		return
+	}
+	if len(txs) > 1 {
+		q.issue(fmt.Sprintf("notary bootstrap: the shared-data domain holds %d records", len(txs)))
+	}
+	cur, err := deploy.VerifDecodeSharedTxData(txs[0])
+	if err != nil {
+		return
+	}
+	for _, k := range live {
+		if k == 0 {
+			continue
+		}
+		recs, ok := q.records(deploy.VerifDesignateNotarySignatureDomainForMember(k))
+		if !ok || len(recs) == 0 {
+			continue
+		}
+		b, err := base64.StdEncoding.DecodeString(recs[0])
+		if err != nil {
+			continue
+		}
+		if okc, _ := cur.ShiftChecksum(b); !okc {
+			q.issue(fmt.Sprintf("notary bootstrap: the first record of signature domain %d is not for the current shared data (vub=%d nonce=%d) although member %d kept ticking", k, cur.ValidUntilBlock, cur.Nonce, k))
+		}
+	}
 }
 
 // block makes one block out of the pooled transactions except the held ones.
@@ -529,7 +584,6 @@ func (q *c13Seq) run(steps []c13Step, r *rand.Rand) {
 	for _, c := range q.cancels {
 		c()
 	}
-	q.x.close()
 }
 
 func (q *c13Seq) coq() string {
